@@ -8,6 +8,7 @@ import (
 	"fmt"
 	"net"
 	"sync"
+	"sync/atomic"
 	"time"
 
 	"github.com/pion/logging"
@@ -47,6 +48,7 @@ type allocation struct {
 	refreshAllocTimer *PeriodicTimer        // Thread-safe
 	refreshPermsTimer *PeriodicTimer        // Thread-safe
 	readTimer         *time.Timer           // Thread-safe
+	readDeadline      atomic.Int64          // UnixNano of the read deadline, 0 if there is none
 	mutex             sync.RWMutex          // Thread-safe
 	log               logging.LeveledLogger // Read-only
 }
